@@ -6,7 +6,7 @@ cd "$(dirname "$0")/.."
 ids="$*"; [ -n "$ids" ] || ids=$(ls seeded)
 for id in $ids; do
   d=seeded/$id; pid=${id%%-*}
-  git -C /repo apply "$d/patch.diff" || { echo "$id: patch does not apply"; continue; }
+  git -C /repo apply "$(pwd)/$d/patch.diff" || { echo "$id: patch does not apply"; continue; }
   ./check "$pid" --tier quick > "$d/detect.log" 2>&1; rc=$?
   git -C /repo checkout -- .
   echo "$id: check $pid exit $rc; $(grep -c '^VIOLATION' "$d/detect.log") VIOLATION line(s); $(grep '^VIOLATION' "$d/detect.log" | head -1)"
